@@ -1332,6 +1332,22 @@ func runC16(c *Case, out func(string)) {
 		}
 	}
 	checkData("the program")
+	// at the very end: the engine is closed under the applier. A replicated entry that cannot take
+	// effect is reported as a failure (the replica must not count it as applied and move on)
+	if oracleOK && n.e != nil {
+		n.e.Close()
+		for _, en := range []*wal.Entry{
+			{Type: wal.OpTypePut, Key: []byte("zz-after-close"), Value: []byte("x"), SequenceNumber: 1 << 40},
+			{Type: wal.OpTypeDelete, Key: []byte("zz-after-close"), SequenceNumber: 1<<40 + 1},
+		} {
+			var aerr error
+			if !withTimeout(5*time.Second, func() { aerr = n.ap.Apply(en) }) {
+				fail("C16: applying a replicated entry on a closed engine did not return")
+			} else if aerr == nil {
+				fail(fmt.Sprintf("C16: the applier reported success for a replicated entry (type %d) although the engine is closed: an entry that took no effect counts as applied", en.Type))
+			}
+		}
+	}
 	if oracleOK {
 		out("ORACLE ok")
 	}
